@@ -54,7 +54,7 @@ TBegin ==
     /\ CASE ev.op = "send"    -> ev.rec = Len(g.rlen) + 1 /\ BeginSend(ev.len)
          [] ev.op = "flush"   -> BeginFlush
          [] ev.op = "destroy" -> BeginDestroy
-         [] ev.op = "ctor"    -> BeginConstruct
+         [] ev.op = "ctor"    -> IF "cfg" \in DOMAIN ev THEN BeginConstructWith(ev.cfg) ELSE BeginConstruct
 
 \* Settle, additionally passing over flushes that are only a side effect of a size query when the
 \* implementation did not perform them (the next observed call is not that write)
